@@ -9,7 +9,7 @@
    entries behind the box, refuted for entries in front of it (F-BMFF). *)
 From Coq Require Import List NArith ZArith Bool Lia.
 From C2PA Require Import Base.Bytes Model.Container Model.ContPng Model.ContJpeg Model.ContGif Model.ContRiff Model.ContRun
-     Model.BmffOffsets Proofs.ContainerProofs Proofs.ContPngProofs Proofs.ContJpegProofs Proofs.ContGifProofs
+     Model.BmffOffsets Proofs.ContainerProofs Proofs.ContPngProofs Proofs.ContJpegProofs Proofs.ContJpegBytes Proofs.ContGifProofs
      Proofs.BmffOffsetsProofs Generated.C07_facts.
 Import ListNotations.
 
@@ -64,6 +64,13 @@ Theorem c09_png_bytes :
     /\ chunks_wf (grun (png_format crc) cs ops) /\ has_ihdr (grun (png_format crc) cs ops)
     /\ (count is_cabx (grun (png_format crc) cs ops) <= 1)%nat.
 Proof. exact png_run_bytes. Qed.
+
+(* JPEG on bytes: same for a valid JPEG (the segments in front of the scan and the scan itself are kept) *)
+Theorem c09_jpeg_bytes :
+  forall ops l, jwf l -> okl jpeg_format jseg_ok l -> Forall (adm_op jadm) ops ->
+    jpeg_run (jpeg_enc l) ops = ROk (jpeg_enc (grun jpeg_format l ops))
+    /\ jwf (grun jpeg_format l ops) /\ okl jpeg_format jseg_ok (grun jpeg_format l ops).
+Proof. exact jpeg_run_bytes. Qed.
 
 (* ---- 3. BMFF absolute offsets (abstract model; F-BMFF) ---- *)
 
